@@ -312,7 +312,8 @@ Inductive value :=
 | VText (cps : list N)         (* str: code points *)
 | VBytes (bs : list N)
 | VTime (us off : Z)           (* aware datetime: instant in microseconds since the epoch, UTC offset in microseconds *)
-| VDigest.                     (* digest._pack(): a 3-tuple *)
+| VDigest                      (* digest._pack(): a 3-tuple *)
+| VMissing.                    (* the dict has no such key (GroupedRecord._packdict() is empty) *)
 
 (* an Avro datum inside a union: branch index and content *)
 Inductive raw :=
@@ -337,6 +338,7 @@ Definition value_eqb (a b : value) : bool :=
   | VBytes x, VBytes y => ns_eqb x y
   | VTime u o, VTime u' o' => Z.eqb u u' && Z.eqb o o'
   | VDigest, VDigest => true
+  | VMissing, VMissing => true
   | _, _ => false
   end.
 Fixpoint values_eqb (a b : list value) : bool :=
@@ -405,6 +407,7 @@ Section Fastavro.
     | VBytes _ => String.eqb p "bytes"
     | VTime _ _ => false
     | VDigest => false
+    | VMissing => false
     end.
 
   Fixpoint first_valid (u : list atype) (v : value) (i : nat) : option (nat * atype) :=
@@ -431,8 +434,8 @@ Section Fastavro.
 
   Inductive fenc := FOk (s : stored) | FBad (e : werr) (index_written : bool).
 
-  (* one field of write_record: union index, then the datum *)
-  Definition enc_field (u : list atype) (v : value) : fenc :=
+  (* write_union for a datum that is there: union index, then the datum *)
+  Definition enc_present (u : list atype) (v : value) : fenc :=
     match v with
     | VDigest => FBad EValue false               (* tuple notation: `name, datum = datum` fails on a 3-tuple *)
     | _ =>
@@ -452,8 +455,17 @@ Section Fastavro.
           | VBytes b => FOk (i, RBytes b)
           | VTime _ _ => FBad EValue false
           | VDigest => FBad EValue false
+          | VMissing => FBad EValue false
           end
       end
+    end.
+
+  (* one field of write_record: a key the datum lacks counts as None when the STRING "null" is a member of the
+     field's union, else ValueError("no value and no default") *)
+  Definition enc_field (u : list atype) (v : value) : fenc :=
+    match v with
+    | VMissing => if existsb (atype_eqb (APrim "null")) u then enc_present u VNone else FBad EValue false
+    | _ => enc_present u v
     end.
 
   Inductive encres := EncOk (l : list stored) | EncFail (e : werr) (junk : bool).
@@ -802,6 +814,7 @@ Definition well_typed (t : string) (v : value) : bool :=
   | VTime us off => String.eqb t "datetime" && in_py_range (us + off)          (* wall clock within year 1..9999 *)
                     && (-86400000000 <? off)%Z && (off <? 86400000000)%Z        (* |utcoffset| < 1 day *)
   | VDigest => false
+  | VMissing => false
   end.
 
 (* "integer outside the schema's range": the range of the Avro type AVRO_TYPE_MAP gives the field *)
